@@ -163,6 +163,8 @@ std::string op_es(toks_t& toks)
 
 std::string op_fit(toks_t& toks);                      // below
 std::string op_gbloop(toks_t& toks, std::string& aug); // below
+std::string op_gbres(toks_t& toks);                    // below
+std::string op_mlres(toks_t& toks);                    // below
 
 std::string vh::execute(toks_t& toks, std::string& aug)
 {
@@ -178,6 +180,14 @@ std::string vh::execute(toks_t& toks, std::string& aug)
     if (fam == "gbloop")
     {
         return op_gbloop(toks, aug);
+    }
+    if (fam == "gbres")
+    {
+        return op_gbres(toks);
+    }
+    if (fam == "mlres")
+    {
+        return op_mlres(toks);
     }
     throw bad_op("family");
 }
@@ -610,6 +620,13 @@ struct round_t
     bool                stop     = false;
     int64_t             es_round = 0;
     double              es_value = 0;
+    // hook H3b (optional records)
+    bool                has_samples = false, has_tune = false, has_outputs = false;
+    std::vector<double> fit_samples;      // sampler.sample(...)
+    std::vector<double> tune;             // (grid ratio, mean validation loss) pairs of tune_shrinkage, flattened
+    double              tune_best = 0, tune_best_value = 0;
+    double              out_ratio = 0;    // shrinkage_ratio at the update of the predictions
+    std::vector<double> woutputs, outputs; // what was added, the tracked predictions after the update
 };
 
 struct fit_trace_t
@@ -683,10 +700,21 @@ fit_trace_t parse_fit_trace(const trace_t& trace)
         f.values0          = r.vec();
         r.end();
     }
-    while (peek() == "gboost.round.score")
+    while (peek() == "gboost.round.score" || peek() == "gboost.round.samples")
     {
         round_t    q;
         const auto round = static_cast<int64_t>(f.rounds.size());
+        if (peek() == "gboost.round.samples")
+        {
+            auto r = next("gboost.round.samples");
+            if (r.n() != round)
+            {
+                throw bad_trace("round index of the fitted samples");
+            }
+            q.fit_samples = r.vec();
+            q.has_samples = true;
+            r.end();
+        }
         while (peek() == "gboost.round.score")
         {
             auto r = next("gboost.round.score");
@@ -731,6 +759,38 @@ fit_trace_t parse_fit_trace(const trace_t& trace)
                 q.x       = r.vec();
                 r.end();
             }
+            while (peek() == "gboost.tune.value")
+            {
+                auto r = next("gboost.tune.value");
+                q.tune.push_back(r.d());
+                q.tune.push_back(r.d());
+                r.end();
+            }
+            if (peek() == "gboost.tune.best")
+            {
+                auto r            = next("gboost.tune.best");
+                q.tune_best       = r.d();
+                q.tune_best_value = r.d();
+                q.has_tune        = true;
+                r.end();
+            }
+            else if (!q.tune.empty())
+            {
+                throw bad_trace("grid values of tune_shrinkage without its answer");
+            }
+            if (peek() == "gboost.round.outputs")
+            {
+                auto r = next("gboost.round.outputs");
+                if (r.n() != round)
+                {
+                    throw bad_trace("round index of the predictions");
+                }
+                q.out_ratio   = r.d();
+                q.woutputs    = r.vec();
+                q.outputs     = r.vec();
+                q.has_outputs = true;
+                r.end();
+            }
             q.stats = stats_row(round + 1);
             {
                 auto r = next("gboost.result.append");
@@ -755,6 +815,10 @@ fit_trace_t parse_fit_trace(const trace_t& trace)
                 }
                 r.end();
                 q.kind = 's';
+                if (q.has_tune || q.has_outputs)
+                {
+                    throw bad_trace("predictions updated in a round whose scaling failed");
+                }
             }
             else
             {
@@ -812,6 +876,133 @@ fit_trace_t parse_fit_trace(const trace_t& trace)
         throw bad_trace("records after gboost.fit.done");
     }
     return f;
+}
+
+size_t count_tokens(const std::string& text)
+{
+    size_t count = 0;
+    bool   in    = false;
+    for (const char ch : text)
+    {
+        if (ch == ' ')
+        {
+            in = false;
+        }
+        else if (!in)
+        {
+            in = true;
+            ++count;
+        }
+    }
+    return count;
+}
+
+// the data flow of one ::fit call (Model/BoostFit.lean). aug: `X <shrinkage> <params> <hasV> [<train> <valid> <values of the
+// bias-only model> <rounds: s | f T <grid pairs> <logged ratio> <values>>] Y <count> <python-only tokens>`; result: the
+// statistics rows (columns 0-4) that result_t::update wrote, in order.
+void print_fit_ext(out_t& aug, out_t& out, const fit_trace_t& f, const std::string& shrinkage, const indices_t& train,
+                   const indices_t& valid, const bool with_values, const double inv_diff, const double inv_scale)
+{
+    aug << "X" << shrinkage;
+    aug.flist(f.params);
+    aug << (with_values ? 1 : 0);
+    std::vector<std::vector<double>> rows;
+    rows.push_back(f.stats0);
+    for (const auto& q : f.rounds)
+    {
+        if (q.kind != 'n')
+        {
+            rows.push_back(q.stats);
+        }
+    }
+    if (with_values)
+    {
+        aug << static_cast<long long>(train.size());
+        for (tensor_size_t i = 0; i < train.size(); ++i)
+        {
+            aug << static_cast<long long>(train(i));
+        }
+        aug << static_cast<long long>(valid.size());
+        for (tensor_size_t i = 0; i < valid.size(); ++i)
+        {
+            aug << static_cast<long long>(valid(i));
+        }
+        aug.flist(f.values0);
+        long long written = 0;
+        for (const auto& q : f.rounds)
+        {
+            written += q.kind != 'n' ? 1 : 0;
+        }
+        aug << written;
+        for (const auto& q : f.rounds)
+        {
+            if (q.kind == 's')
+            {
+                aug << "s";
+            }
+            else if (q.kind == 'f')
+            {
+                aug << "f"
+                    << "T" << static_cast<long long>(q.tune.size() / 2);
+                for (const auto v : q.tune)
+                {
+                    aug << v;
+                }
+                aug << q.shrinkage;
+                aug.flist(q.values);
+            }
+        }
+        out << "X" << static_cast<long long>(rows.size());
+        for (const auto& row : rows)
+        {
+            for (size_t c = 0; c < 5; ++c)
+            {
+                out << row.at(c);
+            }
+        }
+    }
+    else
+    {
+        out << "X" << 0;
+    }
+    // read by the python oracle only: per round the fitted samples, the answer of tune_shrinkage, the ratio at the update; the
+    // distance between the tracked predictions at the optimum round and the predictions of the stored fold model
+    out_t extra;
+    extra << static_cast<long long>(f.rounds.size());
+    for (const auto& q : f.rounds)
+    {
+        extra << std::string(1, q.kind) << (q.has_samples ? 1 : 0);
+        if (q.has_samples)
+        {
+            extra << static_cast<long long>(q.fit_samples.size());
+            for (const auto v : q.fit_samples)
+            {
+                extra << static_cast<long long>(v);
+            }
+        }
+        extra << (q.has_tune ? 1 : 0);
+        if (q.has_tune)
+        {
+            extra << static_cast<long long>(q.tune.size() / 2);
+            for (const auto v : q.tune)
+            {
+                extra << v;
+            }
+            extra << q.tune_best << q.tune_best_value;
+        }
+        extra << (q.has_outputs ? 1 : 0);
+        if (q.has_outputs)
+        {
+            extra << q.out_ratio;
+        }
+        if (q.kind == 'f')
+        {
+            extra << q.shrinkage << q.stats.at(4);
+        }
+    }
+    extra << "I" << inv_diff << inv_scale;
+    const auto text = extra.str();
+    aug << "Y" << static_cast<long long>(count_tokens(text)) << text;
 }
 
 // oracle answers of one ::fit call -> augmented op line; logged decisions -> result line
@@ -1025,6 +1216,7 @@ std::string fit_gboost(toks_t& toks, std::string* const loop_aug = nullptr)
                 throw bad_trace("number of fold fits");
             }
             std::vector<bool> used(fits.size(), false);
+            size_t            values_budget = 30000; // doubles of per-sample tensors on the augmented line
             for (tensor_size_t trial = 0; trial < result.trials(); ++trial)
             {
                 for (tensor_size_t fold = 0; fold < result.folds(); ++fold)
@@ -1065,6 +1257,40 @@ std::string fit_gboost(toks_t& toks, std::string* const loop_aug = nullptr)
                     print_fit_trace(aug, out, fits[found]);
                     // what the public result holds for this fold (after wlearner::merge)
                     aug << pfold->m_statistics.size<0>() << static_cast<long long>(pfold->m_wlearners.size());
+                    {
+                        // the data flow: per-sample tensors only while the op line stays below ~0.5 MB
+                        const auto& ft    = fits[found];
+                        const auto& train = splits[static_cast<size_t>(fold)].first;
+                        size_t      cost  = ft.values0.size();
+                        for (const auto& q : ft.rounds)
+                        {
+                            cost += q.values.size();
+                        }
+                        const auto with_values = values_budget >= cost;
+                        values_budget -= with_values ? cost : 0U;
+                        // invariant at the optimum round: the tracked predictions logged after the round that appended the
+                        // last kept learner against bias + sum of the stored (merged) learners' predictions, all samples
+                        double inv_diff = -1.0, inv_scale = -1.0;
+                        if (ft.fin_round >= 1 && static_cast<size_t>(ft.fin_round) <= ft.rounds.size() &&
+                            ft.rounds[static_cast<size_t>(ft.fin_round - 1)].has_outputs)
+                        {
+                            const auto& logged = ft.rounds[static_cast<size_t>(ft.fin_round - 1)].outputs;
+                            const auto  stored = predict_sum(dataset, all_samples, pfold->m_bias, pfold->m_wlearners);
+                            if (static_cast<tensor_size_t>(logged.size()) != stored.size())
+                            {
+                                throw bad_trace("size of the logged predictions");
+                            }
+                            inv_diff  = 0.0;
+                            inv_scale = 0.0;
+                            for (tensor_size_t i = 0; i < stored.size(); ++i)
+                            {
+                                const auto d = std::fabs(logged[static_cast<size_t>(i)] - stored(i));
+                                inv_diff     = (d > inv_diff || d != d) ? d : inv_diff;
+                                inv_scale    = std::max(inv_scale, std::fabs(stored(i)));
+                            }
+                        }
+                        print_fit_ext(aug, out, ft, shrinkage, train, valid, with_values, inv_diff, inv_scale);
+                    }
                 }
             }
             // gboost_model_t::fit: the biases of the optimum trial's folds are summed and scaled by 1 / folds
@@ -1320,6 +1546,206 @@ std::string op_fit(toks_t& toks)
 std::string op_gbloop(toks_t& toks, std::string& aug)
 {
     return fit_gboost(toks, &aug);
+}
+
+// ---- (d) gboost::result_t driven directly: `gbres <train> <valid> <N> <max_rounds> <R> {<ratio> <values 2N>}xR <done round>` --
+namespace
+{
+indices_t read_indices(toks_t& toks, const tensor_size_t bound)
+{
+    const auto count = toks.i64();
+    if (count < 0 || count > 100000)
+    {
+        throw bad_op("count");
+    }
+    indices_t idx(count);
+    for (tensor_size_t i = 0; i < count; ++i)
+    {
+        idx(i) = toks.i64();
+        if (idx(i) < 0 || idx(i) >= bound)
+        {
+            throw bad_op("sample index");
+        }
+    }
+    return idx;
+}
+
+std::vector<double> read_floats(toks_t& toks)
+{
+    const auto count = toks.i64();
+    if (count < 0 || count > 1000000)
+    {
+        throw bad_op("count");
+    }
+    std::vector<double> v(static_cast<size_t>(count));
+    for (auto& x : v)
+    {
+        x = toks.f();
+    }
+    return v;
+}
+} // namespace
+
+std::string op_gbres(toks_t& toks)
+{
+    // the index lists are bounded by N, which follows them on the line: read them unbounded first
+    const auto train0 = read_indices(toks, std::numeric_limits<tensor_size_t>::max());
+    const auto valid0 = read_indices(toks, std::numeric_limits<tensor_size_t>::max());
+    const auto n      = toks.i64();
+    const auto max_rounds = toks.i64();
+    const auto calls  = toks.i64();
+    if (n < 1 || n > 10000 || max_rounds < 0 || max_rounds > 1000 || calls < 1 || calls > max_rounds + 1)
+    {
+        throw bad_op("gbres sizes");
+    }
+    for (const auto* const idx : {&train0, &valid0})
+    {
+        for (tensor_size_t i = 0; i < idx->size(); ++i)
+        {
+            if ((*idx)(i) >= n)
+            {
+                throw bad_op("sample index");
+            }
+        }
+    }
+    auto values = tensor2d_t{2, n};
+    values.zero();
+    auto result = gboost::result_t{&values, &train0, &valid0, max_rounds};
+    const auto state = solver_state_t{};
+    for (int64_t k = 0; k < calls; ++k)
+    {
+        const auto ratio = toks.f();
+        const auto v     = read_floats(toks);
+        if (static_cast<int64_t>(v.size()) != 2 * n)
+        {
+            throw bad_op("values size");
+        }
+        for (tensor_size_t i = 0; i < 2 * n; ++i)
+        {
+            values(i) = v[static_cast<size_t>(i)];
+        }
+        if (k == 0)
+        {
+            result.update(k, ratio, state);
+        }
+        else
+        {
+            // the weak learner itself is not read by update / done (`merge` skips and removes empty slots)
+            result.update(k, ratio, state, rwlearner_t{});
+        }
+    }
+    const auto round = toks.i64();
+    if (round < 0 || round >= calls || !toks.done())
+    {
+        throw bad_op("gbres round");
+    }
+    result.done(round);
+    out_t out;
+    out << "ok" << result.m_statistics.size<0>();
+    for (tensor_size_t r = 0; r < result.m_statistics.size<0>(); ++r)
+    {
+        for (tensor_size_t c = 0; c < 5; ++c)
+        {
+            out << result.m_statistics(r, c);
+        }
+    }
+    return out.str();
+}
+
+// ---- (e) ml::result_t driven directly: `mlres <folds> <nops> {A k | S trial fold <tr err> <tr loss> <vd err> <vd loss> id |
+//          F <err> <loss> id}` then every stats / extra / value / optimum_trial / final stats ----------------------------------
+std::string op_mlres(toks_t& toks)
+{
+    const auto folds = toks.i64();
+    const auto nops  = toks.i64();
+    if (folds < 1 || folds > 64 || nops < 0 || nops > 10000)
+    {
+        throw bad_op("mlres sizes");
+    }
+    auto result = ml::result_t{param_spaces_t{}, folds};
+    const auto read_values = [&]()
+    {
+        const auto e = read_floats(toks);
+        const auto l = read_floats(toks);
+        if (e.size() != l.size() || e.empty())
+        {
+            throw bad_op("errors/losses sizes");
+        }
+        tensor2d_t t(2, static_cast<tensor_size_t>(e.size()));
+        for (size_t i = 0; i < e.size(); ++i)
+        {
+            t(0, static_cast<tensor_size_t>(i)) = e[i];
+            t(1, static_cast<tensor_size_t>(i)) = l[i];
+        }
+        return t;
+    };
+    for (int64_t k = 0; k < nops; ++k)
+    {
+        const auto op = toks.s();
+        if (op == "A")
+        {
+            const auto trials = toks.i64();
+            if (trials < 1 || trials > 64)
+            {
+                throw bad_op("trials");
+            }
+            result.add(tensor2d_t{trials, 0});
+        }
+        else if (op == "S")
+        {
+            const auto trial = toks.i64();
+            const auto fold  = toks.i64();
+            auto       tr    = read_values();
+            auto       vd    = read_values();
+            const auto id    = toks.i64();
+            if (trial < 0 || trial >= result.trials() || fold < 0 || fold >= result.folds())
+            {
+                throw bad_op("slot"); // the asserts of result_t::store
+            }
+            result.store(trial, fold, std::move(tr), std::move(vd), std::any{id});
+        }
+        else if (op == "F")
+        {
+            auto       values = read_values();
+            const auto id     = toks.i64();
+            result.store(std::move(values), std::any{id});
+        }
+        else
+        {
+            throw bad_op("mlres op");
+        }
+    }
+    if (!toks.done())
+    {
+        throw bad_op("trailing tokens");
+    }
+    const auto id_of = [](const std::any& extra) -> long long
+    {
+        const auto* const p = std::any_cast<int64_t>(&extra);
+        return p == nullptr ? -1LL : static_cast<long long>(*p);
+    };
+    out_t out;
+    out << "ok" << result.trials() << result.folds();
+    for (tensor_size_t trial = 0; trial < result.trials(); ++trial)
+    {
+        for (tensor_size_t fold = 0; fold < result.folds(); ++fold)
+        {
+            out << "C" << id_of(result.extra(trial, fold));
+            print_reported(out, result, trial, fold);
+        }
+    }
+    out << "V" << result.trials();
+    for (tensor_size_t trial = 0; trial < result.trials(); ++trial)
+    {
+        out << result.value(trial);
+    }
+    out << "O" << result.optimum_trial();
+    out << "G";
+    print_stats(out, result.stats(ml::value_type::errors));
+    print_stats(out, result.stats(ml::value_type::losses));
+    out << id_of(result.extra());
+    remove_logs(result);
+    return out.str();
 }
 
 int main()
